@@ -136,6 +136,11 @@ type Instance struct {
 func (c *CloudProvider) GetInstance(node *v1.Node) (cloudprovider.Instance, error) {
 	var instance *Instance
 
+	// expected format is aws:///<availability-zone>/<instance-id>
+	if len(strings.Split(node.Spec.ProviderID, "/")) < 5 {
+		return instance, fmt.Errorf("malformed provider id %q on node %v", node.Spec.ProviderID, node.Name)
+	}
+
 	id := providerIDToInstanceID(node.Spec.ProviderID)
 
 	input := &ec2.DescribeInstancesInput{
